@@ -432,7 +432,7 @@ def run_unit(name, tier, repo=None, cache=None, probes=True):
     return base
 
 
-MISSING_RES = [re.compile(r"cannot find function `(\w+)`"),
+MISSING_RES = [re.compile(r"cannot find function `(\w+)`"), re.compile(r"cannot find value `([A-Z][A-Z0-9_]*)`"),
                re.compile(r"named `(\w+)` found for (?:struct|enum|union|type alias|type) `(\w+)"),
                re.compile(r"no method named `(\w+)` found for (?:struct|enum|union|reference|mutable reference) `[&a-z ]*(\w+)")]
 
@@ -479,8 +479,8 @@ def find_missing_callees(unit, ctx, text, workdir, repo):
                 continue
             hit = None
             for it in sf.items:
-                if it.kw == 'fn' and it.name == name and ty is None:
-                    hit = (rel, None, name)
+                if it.kw in ('fn', 'const') and it.name == name and ty is None:
+                    hit = (rel, None, name, it.kw)
                 elif it.kw == 'impl' and it.body_open is not None:
                     hdr = re.sub(r'\s+', ' ', it.header).strip()[len('impl'):].strip()
                     if ty is not None and not re.search(r'\b%s\b' % re.escape(ty), hdr):
@@ -488,8 +488,8 @@ def find_missing_callees(unit, ctx, text, workdir, repo):
                     if ' for ' in hdr and ty is None:
                         continue
                     for ch in sf._children(it):
-                        if ch.kw == 'fn' and ch.name == name:
-                            hit = (rel, hdr, name)
+                        if ch.kw in ('fn', 'const') and ch.name == name:
+                            hit = (rel, hdr, name, ch.kw)
             if hit and hit not in found:
                 found.append(hit)
                 break
